@@ -307,9 +307,24 @@ def lib_fields(decoder, ret):
             'fragment': _b(r.fragment)}
 
 
+_RECV = bytearray(70000)          # one receive buffer for the whole process (fixed size: views into it may be alive)
+
+
 def run_lib(decoder, wire):
-    """-> ('ok', fields) | ('exc', class_name, documented?, text)"""
+    """-> ('ok', fields) | ('exc', class_name, documented?, text).  The bytes are first decoded from a receive buffer that is then
+    overwritten (as an application reusing its buffer does); what is judged is the decoding of the immutable copy afterwards -
+    a decoder that keeps results across calls (keyed by content) would hand out views into the overwritten buffer."""
     lb = lib()
+    n = len(wire)
+    if 0 < n <= len(_RECV):
+        _RECV[:n] = wire
+        try:
+            lb[decoder](memoryview(_RECV)[:n])
+        except RecursionError:
+            raise
+        except Exception:   # noqa - judged on the decoding below
+            pass
+        _RECV[:n] = b'\xee' * n
     try:
         ret = lb[decoder](wire)
     except RecursionError:
@@ -1052,6 +1067,27 @@ def run(tier='quick', seed=0, shard=(0, 1)):
         v = post_linear(fam, steps)
         if v:
             col.violate(v[0], v[1], {'family': fam, 'sizes': list(sizes)})
+    # 5. Name.from_bytes through a reused receive buffer (shard 0 only: the probe is about state kept between calls)
+    if k == 0:
+        Nm = lib()['enc'].Name
+        for j in range(60):
+            comps = [bytes([8, len(v)]) + v for v in (bytes([65 + (j + i) % 26]) * ((j * 7 + i) % 5) for i in range(j % 4))]
+            nw = bytes([7, sum(len(c) for c in comps)]) + b''.join(comps)
+            _RECV[:len(nw)] = nw
+            try:
+                Nm.from_bytes(memoryview(_RECV)[:len(nw)])
+            except Exception:   # noqa - judged below
+                pass
+            _RECV[:len(nw)] = b'\xee' * len(nw)
+            try:
+                got = [bytes(c) for c in Nm.from_bytes(nw)]
+            except Exception as e:
+                got = f'{type(e).__name__}: {e}'
+            col.case(True, 'name-reuse', nw)
+            if got != comps:
+                col.violate('C07:name-from_bytes-after-buffer-reuse',
+                            f'Name.from_bytes({nw.hex()}) after the same name had been decoded from a receive buffer that was '
+                            f'then overwritten -> {got!r:.120}, strict reading {comps!r:.120}', {'decoder': 'name', 'wire_hex': nw.hex()})
     for key in sorted(best):
         for _ln, _w, rec in best[key]:
             col.violate(rec['key'], rec['what'], rec['input'])
@@ -1067,6 +1103,16 @@ def replay(rec):
         steps = {sz: traced_lines(lib()[decoder], build(sz)) for sz in inp['sizes']}
         v = post_linear(inp['family'], steps)
         return (v is None, v[1] if v else f'linear: {steps}')
+    if inp['decoder'] == 'name':
+        Nm = lib()['enc'].Name
+        nw = bytes.fromhex(inp['wire_hex'])
+        _RECV[:len(nw)] = nw
+        Nm.from_bytes(memoryview(_RECV)[:len(nw)])
+        _RECV[:len(nw)] = b'\xee' * len(nw)
+        got = [bytes(c) for c in Nm.from_bytes(nw)]
+        exp = [bytes(c) for c in Nm.from_bytes(bytes(nw))] if False else None
+        ok = b''.join(got) == nw[2:]
+        return ok, f'Name.from_bytes after buffer reuse -> {got!r:.120}'
     found, _ = check_case(inp['decoder'], bytes.fromhex(inp['wire_hex']))
     mine = [w for kk, w in found if kk == rec['key']]
     if mine:
